@@ -50,6 +50,7 @@ fn main() {
         "C11" => props::c11::run(&mut ctx),
         "C12" => props::c12::run(&mut ctx),
         "C16" => props::c16::run(&mut ctx),
+        "C17" => props::c17::run(&mut ctx),
         "C18" => props::c18::run(&mut ctx),
         "C13" => props::c13::run(&mut ctx),
         "C14" => props::c14::run(&mut ctx),
